@@ -122,7 +122,8 @@ pub fn check(v: &View, vd: &mut Verdict) {
                         }
                     }
                 }
-                for o in v.client_ops().filter(|o| !stream && o.actor == Some(a) && matches!(o.what, OpWhat::Send | OpWhat::Call) && o.ok()) {
+                // (a call whose future was dropped after a poll that cannot have waited for room was accepted too)
+                for o in v.client_ops().filter(|o| !stream && o.actor == Some(a) && ((matches!(o.what, OpWhat::Send | OpWhat::Call) && o.ok()) || super::c04::accepted_when_abandoned(v, o))) {
                     if o.end.is_some_and(|e| e < z) {
                         let invs = v.inv_of_msg(o.msg.unwrap());
                         if z < teardown && invs.first().is_some_and(|i| i.enter > z) {
@@ -213,7 +214,7 @@ pub fn check(v: &View, vd: &mut Verdict) {
                     // temporaries: in-flight client operations, blocked timer sends, publications
                     let temp = v.ops.iter().any(|p| {
                         (p.actor == Some(a) || matches!(p.what, OpWhat::Publish(_))) && p.begin < o.begin && p.end_or_max() > z && (p.client, p.op) != (o.client, o.op)
-                            && matches!(p.what, OpWhat::Send | OpWhat::Call | OpWhat::Halt | OpWhat::TryHalt | OpWhat::AwaitClone | OpWhat::Publish(_) | OpWhat::Ping)
+                            && matches!(p.what, OpWhat::Send | OpWhat::Call | OpWhat::SendAbandoned | OpWhat::CallAbandoned | OpWhat::Halt | OpWhat::TryHalt | OpWhat::AwaitClone | OpWhat::Publish(_) | OpWhat::Ping)
                     });
                     // a publication that the broker may still be fanning out holds upgraded senders of its subscribers
                     let subscribed = v.ops.iter().any(|p| matches!(p.what, OpWhat::Subscribe(_)) && p.actor == Some(a));
